@@ -378,7 +378,7 @@ def directed():
 def run(ctx: Ctx):
     reqs = []
     scs = directed() if not ctx.search else []
-    n = ctx.scale(26, 1200)
+    n = ctx.scale(26, 800)
     for _ in range(n):
         scs.append(gen_scenario(ctx.rng))
     for sc in scs:
